@@ -154,6 +154,11 @@ impl<TS: TimeSource> BeaconSerializer<TS> {
 
     fn peerlist_decode(&self, data: &str, ttl_hours: Option<u16>) -> Vec<SocketAddr> {
         let mut data = from_base62(data).expect("Invalid input");
+        // The text form is a number: leading zero bytes are not printed and have to be restored
+        // (the encoded list always has a length of 4 + 6 * v4 + 18 * v6 bytes)
+        while data.len() % 6 != 4 {
+            data.insert(0, 0);
+        }
         let mut peers = Vec::new();
         let mut pos = 0;
         if data.len() < 4 {
